@@ -38,14 +38,14 @@ ASSUMPTIONS = [
 ]
 SHARDS = {"quick": 4, "thorough": 16}
 BUDGET_S = {"quick": 60, "thorough": 420}
-FLOORS = {"idset.programs": 600, "idset.reads": 10000, "idset.ondisk": 100, "idset.reverse": 300, "idset.multi": 100,
-          "idset.frombytes": 100, "idset.eq.unequal": 100,
-          "hash.cases": 100, "hash.lookups": 2000, "hash.shifted": 20, "hash.bucket_wraps": 20,
-          "ordered.cases": 100, "ordered.probes": 2000,
-          "ordered.indextype.H": 30, "ordered.indextype.i": 5, "ordered.indextype.I": 5, "ordered.indextype.q": 5,
-          "enc.cases": 200, "enc.growable.q": 5, "enc.growable.I": 2, "enc.growable.i": 1,
-          "extsort.cases": 60, "extsort.runs": 200, "extsort.reduced": 5,
-          "compound.cases": 60, "compound.members": 150}
+FLOORS = {"idset.programs": 900, "idset.reads": 50000, "idset.ondisk": 300, "idset.reverse": 700, "idset.multi": 190,
+          "idset.frombytes": 300, "idset.eq.unequal": 500,
+          "hash.cases": 200, "hash.lookups": 6000, "hash.shifted": 100, "hash.bucket_wraps": 3000, "hash.crowded_bucket_cases": 80,
+          "ordered.cases": 180, "ordered.probes": 4500,
+          "ordered.indextype.H": 80, "ordered.indextype.i": 30, "ordered.indextype.I": 20, "ordered.indextype.q": 30,
+          "enc.cases": 280, "enc.growable.q": 3, "enc.growable.I": 8, "enc.growable.i": 10,
+          "extsort.cases": 90, "extsort.runs": 4000, "extsort.reduced": 15,
+          "compound.cases": 90, "compound.members": 500}
 
 
 def rb(rng, n):
